@@ -1,4 +1,5 @@
-import c14
+import vf
+import c14, gen_rs2v
 
 
 class Property(c14.Property):
@@ -9,3 +10,12 @@ class Property(c14.Property):
     assumptions = [
         "an id that was never returned panics in string_interner.rs (spans[id]); scripts only use ids they obtained",
     ]
+
+    trusted_base = c14.Property.trusted_base + [
+        "translator T8 (translators/rs2v): StringInterner::preallocate and ::get of provider/src/string_interner.rs are REGENERATED into Gen/InternGen.v on every run; C12_code_preallocate / C12_code_get / C12_code_get_reachable prove the interner model (Ctx/Interner.v) equal to them (trusted: the translation scheme of rs2v, Base/RsPrelude.v: Vec = list in push order, index/slice bounds as panics, buf[offset..].as_ptr() = the offset)",
+    ]
+
+    def regen(self):
+        info = super().regen()
+        info["T8"] = gen_rs2v.generate(vf.REPO, "InternGen")
+        return info
